@@ -497,8 +497,29 @@ func (s *Sim) Setup() {
 			o := sd.Object()
 			o.CreationTimestamp.Time = s.Store.Now().Add(-time.Duration(sd.AgeSec) * time.Second)
 			s.Store.Inject(o)
+			s.literalQuantities(sd)
 		}
 	}
+}
+
+// literalQuantities: the stored setting keeps the author's spelling of its quantities.
+func (s *Sim) literalQuantities(sd *SettingDef) {
+	if sd.Container == "" || sd.Cpu == "" {
+		return
+	}
+	s.Store.RewriteRaw(objKey{KSetting, sd.NS, sd.Name}, func(m jmap) {
+		spec, _ := m["spec"].(jmap)
+		cs, _ := spec["containers"].([]interface{})
+		if len(cs) == 0 {
+			return
+		}
+		c0, _ := cs[0].(jmap)
+		res, _ := c0["resources"].(jmap)
+		req, _ := res["requests"].(jmap)
+		if req != nil {
+			req["cpu"] = sd.Cpu
+		}
+	})
 }
 
 func (s *Sim) shuffled(keys []objKey, r *rand.Rand) []objKey {
